@@ -7,7 +7,8 @@
    [good_run] = every move of the sequence is legal and its EXACT gain is positive — floats only decide which move. *)
 From Coq Require Import QArith List Arith ZArith Lia.
 From BCT Require Import Base.Mat Base.SumQ Base.ListX Model.Modularity Proofs.ModularitySums Proofs.ModularityQ Proofs.ModularityGain
-  Proofs.ModularityRun Proofs.ModularityRunSign Proofs.ModularityRunB Model.ModularityGood Proofs.ModularityGood.
+  Proofs.ModularityRun Proofs.ModularityRunSign Proofs.ModularityRunB Model.ModularityGood Proofs.ModularityGood
+  Model.ModularitySelect Proofs.ModularitySelect Proofs.ModularityAuto Proofs.ModularityRunFull.
 Import ListNotations.
 Open Scope Q_scope.
 
@@ -230,6 +231,121 @@ Example C07_community_louvain_run_nonvacuous :
   ret_qstart (run_community_louvain ex_dir_rows 1 0 ci lv) < ret_q (run_community_louvain ex_dir_rows 1 0 ci lv).
 Proof. destruct community_louvain_run_nonvacuous as (_ & A & B & C & _ & _ & D). split; [exact A|split; [exact B|split; [exact C|exact D]]]. Qed.
 
+(* ==== THE DECISION RULE IS IN THE MODEL: no hypothesis on the run remains (Model/ModularitySelect.v) ====
+   [dq_vec N gain st u] = the gain vector over the N module slots with dq[ma] := 0; [argmax_first] = np.max / np.argmax
+   (FIRST maximum); [select] = `if max_dq > thr: mb = argmax`; [sweep] = one `for u in rng.permutation(n)` pass;
+   [sweeps] = `while flag: it += 1; if it > maxit: raise; ...` (stops after the first pass without a move; outcome
+   SwDone / SwRaise / SwStreamEnd, unconsumed permutations returned); [thr] stands for 1e-10, [maxit] for 1000. *)
+Theorem C07_argmax_first_spec : forall L mb mx, argmax_first L = Some (mb, mx) ->
+  (mb < length L)%nat /\ nth mb L 0 = mx /\ (forall j, (j < length L)%nat -> nth j L 0 <= mx) /\
+  (forall j, (j < mb)%nat -> nth j L 0 < mx).
+Proof. exact argmax_first_spec. Qed.
+(* a chosen target is a slot of the level, differs from the node's module, has exact gain > thr (thr >= 0), is a maximum
+   of the gains over the other modules' slots and the FIRST such maximum; declining = no slot's gain exceeds thr *)
+Theorem C07_select_some : forall N thr gain st u mb, select N thr gain st u = Some mb ->
+  (mb < N)%nat /\
+  (0 <= thr -> lab st u <> mb /\ thr < gain st u mb) /\
+  (forall t, (t < N)%nat -> t <> lab st u -> mb <> lab st u -> gain st u t <= gain st u mb) /\
+  (forall t, (t < mb)%nat -> t <> lab st u -> mb <> lab st u -> gain st u t < gain st u mb).
+Proof. exact select_some. Qed.
+Theorem C07_select_none : forall N thr gain st u, select N thr gain st u = None ->
+  forall t, (t < N)%nat -> t <> lab st u -> gain st u t <= thr.
+Proof. exact select_none. Qed.
+(* EVERY permutation list, every start state, every `it` bound: the accepted moves form a good run and the returned state
+   is their replay — for all four gain/bookkeeping families at once (gain, move are parameters) *)
+Theorem C07_sweeps_good_run : forall N thr maxit gain move, 0 <= thr -> forall perms it st,
+  let r := sweeps N thr maxit gain move it st perms in
+  good_run N gain move st (lvl_moves (fst (fst r))) /\ snd (fst r) = run_moves move st (lvl_moves (fst (fst r))).
+Proof. exact sweeps_good. Qed.
+
+(* whole extracted finetune runs are monotone for good move lists (ret_qstart / ret_qdef of the three run_finetune functions) ... *)
+Theorem C07_run_finetune_und_monotone : forall rows g ci moves,
+  let n := length rows in let W := of_rows 0 rows in
+  let ik := finetune_und_init n W (init_lab n ci) in
+  sym_on n W -> 0 < stot n W ->
+  good_run n (gain_und W g (stot n W) (snd ik)) (move_und n W (snd ik)) (fst ik) moves ->
+  let r := run_finetune_und rows g ci moves in ret_qstart r <= ret_qdef r.
+Proof. exact run_finetune_und_monotone. Qed.
+Theorem C07_run_finetune_dir_monotone : forall rows g ci moves,
+  let n := length rows in let W := of_rows 0 rows in
+  let ik := finetune_dir_init n W (init_lab n ci) in
+  0 < stot n W ->
+  good_run n (gain_dir W g (stot n W) (fst (snd ik)) (snd (snd ik))) (move_dir false n W (fst (snd ik)) (snd (snd ik))) (fst ik) moves ->
+  let r := run_finetune_dir rows g ci moves in ret_qstart r <= ret_qdef r.
+Proof. exact run_finetune_dir_monotone. Qed.
+(* ... the signed one instantiated at the code's own W0, W1, s0, s1, d0, d1 (sign_params), every qtype *)
+Theorem C07_run_finetune_sign_monotone : forall rows g qt ci moves,
+  let n := length rows in let W := of_rows 0 rows in
+  let p := sign_params n W (qtype_of qt) in
+  let ik := sign_init n p (init_lab n ci) in
+  sym_on n W ->
+  good_run n (gain_sign (sW0 p) (sW1 p) g (ss0 p) (ss1 p) (sd0 p) (sd1 p) (fst (snd ik)) (snd (snd ik)))
+           (move_sign n (sW0 p) (sW1 p) (fst (snd ik)) (snd (snd ik))) (fst ik) moves ->
+  let r := run_finetune_sign rows g qt ci moves in ret_qstart r <= ret_qdef r.
+Proof. exact run_finetune_sign_monotone. Qed.
+
+(* THE PROPERTY, hypothesis-free on the run: [run_*_auto rows g thr maxit .. perms] = the run whose moves the decision rule
+   makes on the permutation stream perms. For every input of the routine's domain, gamma, qtype / objective, initial
+   partition, threshold >= 0, `it` bound and EVERY list of permutations the returned partition is never worse than the
+   start (Louvain: and the true qualities of the levels form a monotone chain on the original network) *)
+Theorem C07_finetune_und_auto_never_worse : forall thr maxit, 0 <= thr -> forall rows g ci perms,
+  sym_rows rows -> 0 < stot (length rows) (of_rows 0 rows) ->
+  let r := run_finetune_und_auto rows g thr maxit ci perms in ret_qstart r <= ret_qdef r.
+Proof. exact finetune_und_auto_monotone. Qed.
+Theorem C07_finetune_dir_auto_never_worse : forall thr maxit, 0 <= thr -> forall rows g ci perms,
+  0 < stot (length rows) (of_rows 0 rows) ->
+  let r := run_finetune_dir_auto rows g thr maxit ci perms in ret_qstart r <= ret_qdef r.
+Proof. exact finetune_dir_auto_monotone. Qed.
+Theorem C07_finetune_sign_auto_never_worse : forall thr maxit, 0 <= thr -> forall rows g qt ci perms, sym_rows rows ->
+  let r := run_finetune_sign_auto rows g thr maxit qt ci perms in ret_qstart r <= ret_qdef r.
+Proof. exact finetune_sign_auto_monotone. Qed.
+Theorem C07_louvain_und_auto_monotone : forall thr maxit, 0 <= thr -> forall rows g perms,
+  sym_rows rows -> 0 < stot (length rows) (rowsW rows) ->
+  let r := run_louvain_und_auto rows g thr maxit perms in
+  chain_mono (ret_qstart r) (fst r) /\ ret_qstart r <= ret_qdef r.
+Proof. exact louvain_und_auto_monotone. Qed.
+Theorem C07_louvain_und_sign_auto_monotone : forall thr maxit, 0 <= thr -> forall rows g qt perms,
+  sym_rows rows -> perms <> [] ->
+  let r := run_louvain_sign_auto rows g thr maxit qt perms in
+  chain_mono (ret_qstart r) (fst r) /\ ret_qstart r <= ret_qdef r.
+Proof. exact louvain_sign_auto_monotone. Qed.
+Theorem C07_community_louvain_auto_monotone : forall thr maxit, 0 <= thr -> forall rows g kind ci perms, perms <> [] ->
+  ((kind <= 1)%nat -> 0 < stot (length rows) (rowsW rows)) ->
+  let r := run_community_louvain_auto rows g thr maxit kind ci perms in
+  chain_mono (ret_qstart r) (fst r) /\ ret_qstart r <= ret_qdef r.
+Proof. exact community_louvain_auto_monotone. Qed.
+(* restart: whatever produced a result (ANY move lists), a run of the decision rule started from the RETURNED labels, on
+   ANY permutation stream, does not end below the definitional quality of that result *)
+Theorem C07_finetune_und_restart : forall thr maxit, 0 <= thr -> forall rows g ci ms perms2,
+  sym_rows rows -> 0 < stot (length rows) (of_rows 0 rows) ->
+  let r1 := run_finetune_und rows g ci ms in
+  ret_qdef r1 <= ret_qdef (run_finetune_und_auto rows g thr maxit (map Z.of_nat (ret_ci r1)) perms2).
+Proof. exact finetune_und_restart. Qed.
+Theorem C07_finetune_dir_restart : forall thr maxit, 0 <= thr -> forall rows g ci ms perms2,
+  0 < stot (length rows) (of_rows 0 rows) ->
+  let r1 := run_finetune_dir rows g ci ms in
+  ret_qdef r1 <= ret_qdef (run_finetune_dir_auto rows g thr maxit (map Z.of_nat (ret_ci r1)) perms2).
+Proof. exact finetune_dir_restart. Qed.
+Theorem C07_finetune_sign_restart : forall thr maxit, 0 <= thr -> forall rows g qt ci ms perms2, sym_rows rows ->
+  let r1 := run_finetune_sign rows g qt ci ms in
+  ret_qdef r1 <= ret_qdef (run_finetune_sign_auto rows g thr maxit qt (map Z.of_nat (ret_ci r1)) perms2).
+Proof. exact finetune_sign_restart. Qed.
+Theorem C07_community_louvain_restart : forall thr maxit, 0 <= thr -> forall rows g kind ci lv perms2, perms2 <> [] ->
+  ((kind <= 1)%nat -> 0 < stot (length rows) (rowsW rows)) ->
+  let r1 := run_community_louvain rows g kind ci lv in
+  ret_qdef r1 <= ret_qdef (run_community_louvain_auto rows g thr maxit kind (map Z.of_nat (ret_ci r1)) perms2).
+Proof. exact community_louvain_restart. Qed.
+(* non-vacuity: the rule run on concrete permutation streams (two triangles joined by an edge): three sweeps + one, the
+   moves it makes, the outcome with an `it` bound of 0 (raise) and on a stream that ends early *)
+Example C07_auto_nonvacuous :
+  let perms := [[0; 1; 2; 3; 4; 5]; [5; 4; 3; 2; 1; 0]; [0; 1; 2; 3; 4; 5]; [0; 1]]%nat in
+  auto_moves (auto_louvain_und ex_rows 1 thr10 (Some 1000%nat) perms) = [[(0, 1); (2, 1); (3, 4); (4, 5); (3, 5)]; []]%nat /\
+  snd (auto_louvain_und ex_rows 1 thr10 (Some 1000%nat) perms) = (O, SwDone) /\
+  ret_ci (run_louvain_und_auto ex_rows 1 thr10 (Some 1000%nat) perms) = [1; 1; 1; 2; 2; 2]%nat /\
+  snd (auto_louvain_und ex_rows 1 thr10 (Some 0%nat) perms) = (4%nat, SwRaise) /\
+  snd (auto_louvain_und ex_rows 1 thr10 None [[0; 1; 2; 3; 4; 5]]%nat) = (O, SwStreamEnd).
+Proof. exact auto_nonvacuous. Qed.
+
 (* ---- hierarchy: a level is kept only if q[h] - q[h-1] >= 1e-10: the retained list increases strictly ---- *)
 Theorem C07_levels_strict : forall qs prev, incr_from prev (retained_from prev qs).
 Proof. exact levels_strict. Qed.
@@ -304,3 +420,20 @@ Print Assumptions C07_community_louvain_run_monotone.
 Print Assumptions C07_louvain_und_run_monotone_checked.
 Print Assumptions C07_louvain_und_sign_run_monotone_checked.
 Print Assumptions C07_community_louvain_run_monotone_checked.
+Print Assumptions C07_argmax_first_spec.
+Print Assumptions C07_select_some.
+Print Assumptions C07_select_none.
+Print Assumptions C07_sweeps_good_run.
+Print Assumptions C07_run_finetune_und_monotone.
+Print Assumptions C07_run_finetune_dir_monotone.
+Print Assumptions C07_run_finetune_sign_monotone.
+Print Assumptions C07_finetune_und_auto_never_worse.
+Print Assumptions C07_finetune_dir_auto_never_worse.
+Print Assumptions C07_finetune_sign_auto_never_worse.
+Print Assumptions C07_louvain_und_auto_monotone.
+Print Assumptions C07_louvain_und_sign_auto_monotone.
+Print Assumptions C07_community_louvain_auto_monotone.
+Print Assumptions C07_finetune_und_restart.
+Print Assumptions C07_finetune_dir_restart.
+Print Assumptions C07_finetune_sign_restart.
+Print Assumptions C07_community_louvain_restart.
